@@ -1,0 +1,31 @@
+//go:build verif
+
+package metadatapart
+
+import (
+	"context"
+	"fmt"
+
+	"github.com/jdillenkofer/pithos/internal/storage"
+	"github.com/jdillenkofer/pithos/internal/storage/metadatapart/gc"
+	"github.com/jdillenkofer/pithos/internal/storage/metadatapart/partstore"
+)
+
+// RunGCOnce runs a single synchronous garbage-collection pass on a
+// metadata-part storage (verification harness only).
+func RunGCOnce(ctx context.Context, s storage.Storage) error {
+	mbs, ok := s.(*metadataPartStorage)
+	if !ok {
+		return fmt.Errorf("RunGCOnce: not a metadata-part storage: %T", s)
+	}
+	return gc.RunOnce(ctx, mbs.partGC)
+}
+
+// NamedPartStoresOf exposes the configured part stores (verification harness only).
+func NamedPartStoresOf(s storage.Storage) (*partstore.NamedPartStores, bool) {
+	mbs, ok := s.(*metadataPartStorage)
+	if !ok {
+		return nil, false
+	}
+	return mbs.partStores, true
+}
